@@ -134,6 +134,9 @@ def check(repo: Repo, rep: Report) -> None:
                 if lit and oth:
                     o = g_.owner(oth[0].id)
                     conv_o = {u(m_.targets[0]) for m_ in (o.direct_nodes() if o is not None else ()) if isinstance(m_, ast.Assign) and any(isinstance(c, ast.Call) and isinstance(c.func, ast.Attribute) and c.func.attr == "to_seconds" for c in ast.walk(m_.value))}
+                    rep.ob("Y10-converted-comparisons", g_, f"{g_.qual}: `{short(n_)}` compares with zero", lit[0].value == 0,
+                           f"{g_.qual}: the 'already due' / 'has a period' decision compares with {lit[0].value!r} instead of 0: due times or periods below that "
+                           f"threshold are treated as zero (timer(0.5) fires at once)")
                     rep.ob("Y10-converted-comparisons", g_, f"{g_.qual}: `{short(n_)}`", oth[0].id in (conv | conv_o),
                            f"{g_.qual} compares `{oth[0].id}` with a number although it is not the seconds value obtained from to_seconds(): a due time / "
                            f"period given as a timedelta raises TypeError (delivered as on_error) instead of being scheduled")
